@@ -32,6 +32,34 @@ FadingGenerator = Union[JakesSampleGenerator, RayleighSampleGenerator]
 IntOrIntArrayUnion = Union[np.ndarray, int]
 NumberOrArray = TypeVar("NumberOrArray", np.ndarray, float)
 
+
+def _in_double_precision(matrices: Iterable[np.ndarray]) -> List[np.ndarray]:
+    """
+    The matrices of all users (precoders, receive filters) with at least
+    double precision.
+
+    Products of integer matrices are computed by numpy in the integer type
+    of the operands (an `int8` or `uint8` matrix silently wraps around) and
+    products of single precision matrices in single precision. Covariance
+    matrices and SINRs are therefore always computed from double precision
+    (float64 or complex128) versions of what the caller provides.
+
+    Parameters
+    ----------
+    matrices : list[np.ndarray] | np.ndarray
+        One 2D numpy array for each user.
+
+    Returns
+    -------
+    list[np.ndarray]
+        The same matrices with dtype float64 or complex128 (the arrays
+        themselves if they already have one of these types).
+    """
+    return [
+        np.asarray(m, dtype=np.result_type(np.asarray(m).dtype, np.float64))
+        for m in matrices
+    ]
+
 # Type representing something that can be used to index a numpy array
 Indexes = Union[np.ndarray, List[int], slice]
 
@@ -1473,7 +1501,7 @@ class MultiUserChannelMatrix:  # pylint: disable=R0902
             numpy complex array).
         """
         # $$\mtQ k = \sum_{j=1, j \neq k}^{K} \frac{P_j}{Ns_j} \mtH_{kj} \mtF_j \mtF_j^H \mtH_{kj}^H + \sigma_n^2 \mtI_{N_k}$$
-        Qk = self._calc_Q_impl(k, F_all_users)
+        Qk = self._calc_Q_impl(k, _in_double_precision(F_all_users))
 
         if self.noise_var is not None:
             # If self.noise_var is not None we add the covariance matrix of
@@ -1542,7 +1570,7 @@ class MultiUserChannelMatrix:  # pylint: disable=R0902
             The interference covariance matrix at receiver :math:`k`.
         """
         # $$\mtQ k = \sum_{j=1, j \neq k}^{K} \frac{P_j}{Ns_j} \mtH_{k} \mtF_j \mtF_j^H \mtH_{k}^H + \sigma_n^2 \mtI_{N_k}$$
-        Qk = self._calc_JP_Q_impl(k, F_all_users)
+        Qk = self._calc_JP_Q_impl(k, _in_double_precision(F_all_users))
 
         if self.noise_var is not None:
             Rnk = np.eye(self.Nr[k]) * self.noise_var
@@ -1994,6 +2022,8 @@ class MultiUserChannelMatrix:  # pylint: disable=R0902
         """
         K = self.K
         SINRs = np.empty(K, dtype=np.ndarray)
+        F = _in_double_precision(F)
+        U = _in_double_precision(U)
 
         for k in range(self.K):
             Bkl_all_l = self._calc_Bkl_cov_matrix_all_l(F, k, self.noise_var)
@@ -2103,6 +2133,8 @@ class MultiUserChannelMatrix:  # pylint: disable=R0902
         """
         K = self.K
         SINRs = np.empty(K, dtype=np.ndarray)
+        F = _in_double_precision(F)
+        U = _in_double_precision(U)
 
         noise_var = self.noise_var if self.noise_var is not None else 0.0
         for k in range(self.K):
@@ -2614,7 +2646,9 @@ class MultiUserChannelMatrixExtInt(  # pylint: disable=R0904
         cum_Nr = np.hstack([0, np.cumsum(self.Nr)])
 
         for ii in range(self.Nr.size):
-            extH = self.big_H[cum_Nr[ii]:cum_Nr[ii + 1], np.sum(self.Nt):]
+            extH = _in_double_precision(
+                [self.big_H[cum_Nr[ii]:cum_Nr[ii + 1],
+                            np.sum(self.Nt):]])[0]
             R_all_k[ii] = pe * np.dot(extH, extH.transpose().conjugate())
         return R_all_k
 
@@ -2689,7 +2723,8 @@ class MultiUserChannelMatrixExtInt(  # pylint: disable=R0904
         """
         # $$\mtQ k = \sum_{j=1, j \neq k}^{K} \frac{P_j}{Ns_j} \mtH_{kj} \mtF_j \mtF_j^H \mtH_{kj}^H + \mtR_e$$
         Rek_all_k = self.calc_cov_matrix_extint_plus_noise(pe)
-        Qk = self._calc_Q_impl(k, F_all_users) + Rek_all_k[k]
+        Qk = self._calc_Q_impl(
+            k, _in_double_precision(F_all_users)) + Rek_all_k[k]
 
         return Qk
 
@@ -2756,7 +2791,8 @@ class MultiUserChannelMatrixExtInt(  # pylint: disable=R0904
         """
         # $$\mtQ k = \sum_{j=1, j \neq k}^{K} \frac{P_j}{Ns_j} \mtH_{k} \mtF_j \mtF_j^H \mtH_{k}^H + \mtR_e$$
         Rek_all_k = self.calc_cov_matrix_extint_plus_noise(pe)
-        Qk = self._calc_JP_Q(k, F_all_users) + Rek_all_k[k]
+        Qk = self._calc_JP_Q(
+            k, _in_double_precision(F_all_users)) + Rek_all_k[k]
 
         return Qk
 
@@ -2793,6 +2829,8 @@ class MultiUserChannelMatrixExtInt(  # pylint: disable=R0904
         SINRs = np.empty(K, dtype=np.ndarray)
 
         Re_all_k = self.calc_cov_matrix_extint_plus_noise(pe)
+        F = _in_double_precision(F)
+        U = _in_double_precision(U)
 
         for k in range(self.K):
             Bkl_all_l = self._calc_Bkl_cov_matrix_all_l(F, k, Re_all_k[k])
@@ -2928,6 +2966,8 @@ class MultiUserChannelMatrixExtInt(  # pylint: disable=R0904
         SINRs = np.empty(K, dtype=np.ndarray)
 
         Re_all_k = self.calc_cov_matrix_extint_plus_noise(pe)
+        F = _in_double_precision(F)
+        U = _in_double_precision(U)
 
         for k in range(self.K):
             Bkl_all_l = self._calc_JP_Bkl_cov_matrix_all_l(F, k, Re_all_k[k])
